@@ -156,6 +156,15 @@ def t_decoys(rnd, files):
                 "pub trait %s { fn go(&self); }\n\n" % nm.title().replace("_", ""),
                 "impl Default for Plain%s { fn default() -> Self { Plain%s } }\npub struct Plain%s;\n\n" % (nm.title().replace("_", ""), nm.title().replace("_", ""), nm.title().replace("_", "")),
                 "type Alias%s = Vec<String>;\n\n" % nm.title().replace("_", ""),
+                # functions of other frameworks whose attributes merely look like Tauri's, and Tauri-annotated functions that are not
+                # top-level items: not commands
+                "#[poise::command(slash_command)]\npub async fn %s(ctx: Context<'_>, user: String) -> Result<(), Error> {\n    todo!()\n}\n\n" % nm,
+                "#[clap::command(name = \"x\")]\npub fn %s(flag: bool) {}\n\n" % nm,
+                "#[mycrate::tauri::command]\npub fn %s(a: i32) -> i32 { a }\n\n" % nm,
+                "#[tauri::command::hidden]\npub fn %s(a: i32) -> i32 { a }\n\n" % nm,
+                "#[commands]\npub fn %s(a: i32) -> i32 { a }\n\n" % nm,
+                "pub struct Svc%s;\nimpl Svc%s {\n    #[tauri::command]\n    pub fn %s(&self, a: i32) -> i32 { a }\n}\n\n" % (nm.title().replace("_", ""), nm.title().replace("_", ""), nm),
+                "#[cfg(test)]\nmod tests_%s {\n    #[tauri::command]\n    fn %s() {}\n}\n\n" % (nm, nm),
             ])
             out[p].insert(rnd.randint(0, len(out[p])), Item("decoy", nm, src))
     return out, "noise"
